@@ -180,6 +180,14 @@ def b_expectations(case):
                 o = t["types"].get(e["extends"].lower())
                 if o and o[0] in a_names:
                     exp.append(("type/%s.html" % e["name"].lower(), o[1], "type/%s.html" % o[1], None, "type %s extends A's type" % e["name"]))
+            if kind == "module" and e.get("argtype") and e["kind"] in ("iface", "sub"):
+                # dummy argument of a module procedure / interface body, typed through a name its own USE may import
+                inner = usemodel.inner_scopes({"mods": [u]}, exports, tables)["%s::%s" % (u["name"].lower(), e["name"].lower())]
+                tt = inner["imports"]["types"] if e["kind"] == "iface" else inner["table"]["types"]
+                o = tt.get(e["argtype"].lower())
+                if o and o[0] in a_names:
+                    exp.append(("%s/%s.html" % ("interface" if e["kind"] == "iface" else "proc", e["name"].lower()), o[1],
+                                "type/%s.html" % o[1], None, "dummy argument of %s of A's type" % e["name"]))
     return exp
 
 
